@@ -1617,8 +1617,10 @@ mzd_t *mzd_submatrix(mzd_t *S, mzd_t const *M, rci_t const startrow, rci_t const
       word const mask_end = __M4RI_LEFT_BITMASK(ncols % m4ri_radix);
       for (rci_t x = startrow, i = 0; i < nrows; ++i, ++x) {
         /* process remaining bits */
-        word temp                      = mzd_row_const(M, x)[startword + ncols / m4ri_radix] & mask_end;
-        mzd_row(S, i)[ncols / m4ri_radix] = temp;
+        word temp = mzd_row_const(M, x)[startword + ncols / m4ri_radix] & mask_end;
+        /* keep the bits beyond the copied columns: S may be a window (or larger than the source block) */
+        word *dst = mzd_row(S, i) + ncols / m4ri_radix;
+        *dst      = (*dst & ~mask_end) | temp;
       }
     }
   } else {
